@@ -177,6 +177,13 @@ func (s *Stream) LogRequest(id string, req *http.Request) error {
 		}
 	}
 
+	// A request without a body stays recognisable as such: wrapping
+	// http.NoBody would make net/http frame the forwarded request as a body of
+	// unknown length (Transfer-Encoding: chunked instead of Content-Length: 0).
+	if req.Body == nil || req.Body == http.NoBody {
+		return nil
+	}
+
 	req.Body = &bodyLogger{
 		s:    s,
 		id:   id,
